@@ -351,6 +351,17 @@ func replaceEntities(b []byte, i int, entitiesMap map[string][]byte, revEntities
 			}
 		}
 
+		if 0 < len(r) && (r[0] >= '0' && r[0] <= '9' || r[0] >= 'a' && r[0] <= 'z' || r[0] >= 'A' && r[0] <= 'Z' || r[0] == '#' || r[0] == ';') {
+			// check that the replacement doesn't extend or terminate an unterminated entity in front of it, for example &am&#112;; must not become &amp;
+			for k := i - 1; 0 <= k; k-- {
+				if b[k] == '&' || MaxEntityLength < i-k {
+					return b, j
+				} else if !(b[k] >= '0' && b[k] <= '9' || b[k] >= 'a' && b[k] <= 'z' || b[k] >= 'A' && b[k] <= 'Z' || b[k] == '#') {
+					break
+				}
+			}
+		}
+
 		copy(b[i:], r)
 		copy(b[i+len(r):], b[j+1:])
 		b = b[:len(b)-n+len(r)]
